@@ -143,6 +143,9 @@ _aug("C32", " + RP: TLC (MC_Devices) enumerates every history of <= 3/4 calls ov
 _aug("C10", " + TLC: MC_Interrupt (every placement of up to 2/3 requests of priorities 1/4/7 from two devices over every boundary of a program+handler: IntGate and transparency)",
      " MC_Interrupt model-checks, inside the specification, a user program and a register-saving handler with up to 2 (thorough: 3) interrupt requests placed at every instruction boundary (competing at one boundary, arriving inside the handler, successive; program priority 0 and 4): IntGate on every step and equality of the final state with the uninterrupted run (13 097 distinct states for 2 requests).")
 
+_aug("C11", " + TLC: MC_OsTraps (the real OS image executed by TLC on the specification's machine for every string / queue / character of a bounded universe)",
+     " MC_OsTraps lets TLC execute the built-in OS routines themselves - the OS image exported from the crate, so an edit to os.asm is seen - on the specification's machine from a user-mode TRAP to its return, for every string of up to 2 (thorough: 3) symbols over {x01, x41, xE9, xFF} (PUTS incl. words with high bits, PUTSP packed with odd and even lengths), every keyboard queue of up to two bytes (GETC, IN), every character (OUT), two register fills, three condition codes, real and virtual traps, and checks the contract at the return (1 368 runs of the routines).")
+
 def main():
     props = [json.loads(l) for l in open(os.path.join(ROOT, "properties.jsonl"))]
     done = sorted(check.CHECKS)
